@@ -39,6 +39,7 @@ Definition g_desc (s : sx) : desc :=
 Definition g_note (s : sx) : note :=
   let l := gL s in
   {| n_name := match nthx 0 l with SB b => Some b | _ => None end;
+     n_nextra := match nthx 5 l with SB b => b | _ => [] end;
      n_npad := gB (nthx 1 l); n_type := gI (nthx 2 l);
      n_desc := g_desc (nthx 3 l); n_dpad := gB (nthx 4 l) |}.
 Definition g_notes (s : sx) : list note := map g_note (gL s).
